@@ -198,8 +198,19 @@ def abstract_nl(terms):
         if z3.is_quantifier(t) or not z3.is_app(t) or t.num_args() == 0:
             cache[k] = t
             return t
-        args = [walk(a) for a in t.children()]
         kind = t.decl().kind()
+        if kind == z3.Z3_OP_MUL:
+            # flatten nested products so that the abstraction is canonical for a multiset of factors
+            flat, todo = [], list(t.children())
+            while todo:
+                c = todo.pop(0)
+                if z3.is_app(c) and c.decl().kind() == z3.Z3_OP_MUL:
+                    todo = list(c.children()) + todo
+                else:
+                    flat.append(c)
+            args = [walk(a) for a in flat]
+        else:
+            args = [walk(a) for a in t.children()]
         r = None
         if kind == z3.Z3_OP_MUL:
             nums = [a for a in args if is_num(a)]
@@ -215,6 +226,10 @@ def abstract_nl(terms):
                     r = n * r
         elif kind == z3.Z3_OP_DIV and not is_num(args[1]):
             r = divr(args[0], args[1])
+        if r is None and kind == z3.Z3_OP_MUL:
+            r = args[0]
+            for a in args[1:]:
+                r = r * a
         if r is None:
             r = t.decl()(*args) if args else t
         cache[k] = r
